@@ -26,7 +26,6 @@ import (
 	sdk "github.com/cosmos/cosmos-sdk/types"
 	"github.com/cosmos/cosmos-sdk/types/tx/signing"
 	authsigning "github.com/cosmos/cosmos-sdk/x/auth/signing"
-	authtypes "github.com/cosmos/cosmos-sdk/x/auth/types"
 	"github.com/cosmos/gogoproto/proto"
 	"github.com/ethereum/go-ethereum/common"
 	"github.com/ethereum/go-ethereum/crypto"
@@ -393,10 +392,11 @@ func (g *genV) coq() string {
 		CqBool(g.Erc20Native), CqBool(g.Staking))
 }
 
-// environment of an import: keccak on code ids, base accounts, next dynamic precompile address, bond supply
+// environment of an import: keccak on code ids, the accounts x/auth holds at the addresses the custom modules use,
+// next dynamic precompile address, bond supply (read off the imported document: envFromDoc)
 type envV struct {
 	hashes  map[uint64][]byte
-	base    []*big.Int
+	accts   []acctK
 	nextDyn *big.Int
 	supply  bool
 }
@@ -414,33 +414,9 @@ func (e *envV) coq() string {
 		}
 		hs = append(hs, fmt.Sprintf("(%s, %s)", CqZu(id), CqZ(bz(crypto.Keccak256(e.hashes[id])))))
 	}
-	bs := make([]string, len(e.base))
-	for i, b := range e.base {
-		bs[i] = CqZ(b)
+	as := make([]string, len(e.accts))
+	for i, a := range e.accts {
+		as[i] = fmt.Sprintf("(%s, %s)", CqZ(a.Addr), a.Kind)
 	}
-	return fmt.Sprintf("%s %s %s %s", CqList(hs), CqList(bs), CqZ(e.nextDyn), CqBool(e.supply))
-}
-
-// envFor describes what the rest of the source application hands to the fresh one (through the other modules' genesis)
-func envFor(src *Chain, g *genV) *envV {
-	ctx := src.QueryCtx()
-	e := &envV{hashes: g.codes}
-	for _, a := range g.Accounts {
-		addr := common.BigToAddress(a.Addr)
-		if acc := src.App.AccountKeeper.GetAccount(ctx, sdk.AccAddress(addr.Bytes())); acc != nil {
-			if _, ok := acc.(*authtypes.BaseAccount); ok {
-				e.base = append(e.base, a.Addr)
-			}
-		}
-	}
-	seq := uint64(0)
-	if acc := src.App.AccountKeeper.GetAccount(ctx, authtypes.NewModuleAddress(cpctypes.ModuleName)); acc != nil {
-		seq = acc.GetSequence()
-	}
-	e.nextDyn = bz(crypto.CreateAddress(cpctypes.CpcModuleAddress, seq).Bytes())
-	bond, err := src.App.StakingKeeper.BondDenom(ctx)
-	if err == nil {
-		e.supply = src.App.BankKeeper.GetSupply(ctx, bond).IsPositive()
-	}
-	return e
+	return fmt.Sprintf("%s %s %s %s", CqList(hs), CqList(as), CqZ(e.nextDyn), CqBool(e.supply))
 }
